@@ -405,6 +405,9 @@ fn golden_check(ctx: &WorkerCtx, rep: &mut WorkerReport, net: &str) {
 }
 
 pub fn worker(ctx: &WorkerCtx) -> WorkerReport {
+    if ctx.shard == 8 {
+        FORCE_HUGE.store(true, std::sync::atomic::Ordering::Relaxed);
+    }
     let mut rep = WorkerReport::default();
     if ctx.extra.first().map(|s| s.as_str()) == Some("twin") {
         // child twin: replay and write the result
